@@ -109,6 +109,8 @@ def regenerate(sp, lean_dir):
     _GEN['defaults'] = [getattr(sp.state, n) for n in NAMES]
     out = {k: info[k] for k in ('prog', 'state_names', 'module_settings', 'write_sites', 'files_scanned', 'digest', 'notes')}
     out['settings_monitor_all_properties'] = _collect_settings_monitor()
+    from props import _pyx
+    out['obligations'] = list(out.get('obligations', [])) + _pyx.regenerate_pyx(sp, lean_dir)
     return out
 
 
